@@ -102,6 +102,8 @@ theorem fact_genesis_exported : Generated.genesis_exported =
     "Params,TokenInfos,ChainId,DelegateKeys,Nonces,LastObservedEventNonce,Sequence,LastObservedValset,LastOutgoingBatchTxNonce,LatestBlockHeight" := rfl
 theorem fact_genesis_imported : Generated.genesis_imported =
     "data.ExternalStates,data.Params,data.TokenInfos,externalState.ChainId,externalState.Confirmations,externalState.DelegateKeys,externalState.ExternalEventVoteRecords,externalState.LastObservedEventNonce,externalState.LastObservedValset,externalState.LastOutgoingBatchTxNonce,externalState.LatestBlockHeight,externalState.LatestBlockHeight.ExternalHeight,externalState.Nonces,externalState.OutgoingTxs,externalState.Sequence,externalState.UnbatchedSendToExternalTxs" := rfl
+theorem fact_genesis_import_counters : Generated.genesis_import_counters =
+    "k.SetLastObservedExternalBlockHeight(ctx, chainId, externalState.LatestBlockHeight.ExternalHeight) | k.setLastObservedEventNonce(ctx, chainId, externalState.LastObservedEventNonce) | k.setLastOutgoingBatchNonce(ctx, chainId, externalState.LastOutgoingBatchTxNonce) | k.setOutgoingSequence(ctx, chainId, externalState.Sequence)" := rfl
 theorem fact_oracle_genesis_exported : Generated.oracle_genesis_exported = "Params,Prices,Holders" := rfl
 theorem fact_oracle_genesis_epoch : Generated.oracle_genesis_epoch = "k.setCurrentEpoch(ctx, 1)" := rfl
 
